@@ -109,9 +109,11 @@ def tdiv(a, b):
     return q if (a < 0) == (b < 0) else -q
 
 
-def rv_ref(n, mn, rd, rs1, rs2, imm, pc, regs, mem):
+def rv_ref(n, mn, rd, rs1, rs2, imm, pc, regs, mem, trap=True):
     """returns ('ok', pc', {reg: value}, {addr: byte}) | ('fault',) | ('misaligned',).
-    regs: dict reg->value (x0 forced to 0)."""
+    regs: dict reg->value (x0 forced to 0).  trap=False: the outcome a machine WITHOUT the
+    instruction-address-misaligned exception would produce (used to check that a difference attributed
+    to that recorded finding has exactly that shape)."""
     X = mask(n)
     g = lambda r: 0 if r == 0 else regs.get(r, 0) & X
     a, b = g(rs1), g(rs2)
@@ -127,7 +129,7 @@ def rv_ref(n, mn, rd, rs1, rs2, imm, pc, regs, mem):
         return ("ok", newpc, r, wr)
 
     def jump(target, link):
-        if target % 4:
+        if target % 4 and trap:
             return ("misaligned",)
         r = {}
         if link and rd != 0:
